@@ -234,6 +234,8 @@ def post_mem(ip, ctx, out):
 
 
 def rp(ob):
+    if ob['name'].startswith('mem/'):
+        return {'func': 'memory_time_parsing', 'inputs': {'obligation': ob['name']}}
     return {'func': 'independent_boson', 'inputs': {'obligation': ob['name']}}
 
 
